@@ -182,25 +182,31 @@ def _probe_inputs():
     return out
 
 
-def behaviour(cname, obj):
-    """a digest of what the object DOES on probe inputs ('na' when there is nothing to run)"""
+def behaviour(cname, obj, rev=False):
+    """a digest of what the object DOES on probe inputs ('na' when there is nothing to run); rev: the probe
+    inputs are presented in the other order (3-D first, then 2-D) - the digest is per input, so it is the same"""
     from .checks_objects import _digest_result
     from panoptica import UnmatchedInstancePair, SemanticPair
     try:
         with quiet(), drive.time_limit(240):
             if cname == "Panoptica_Evaluator":
-                parts = []
-                for pred, ref in _probe_inputs():
+                probes = list(enumerate(_probe_inputs()))
+                parts = [""] * len(probes)
+                for i, (pred, ref) in (reversed(probes) if rev else probes):
                     try:
-                        parts.append(_digest_result(obj.evaluate(pred.copy(), ref.copy(), verbose=False)))
+                        parts[i] = _digest_result(obj.evaluate(pred.copy(), ref.copy(), verbose=False))
                     except Exception as e:  # noqa: BLE001   (e.g. labels outside the class groups: same for both objects)
-                        parts.append("raise:" + type(e).__name__)
+                        parts[i] = "raise:" + type(e).__name__
                 return "|".join(parts)
             if cname in ("NaiveThresholdMatching", "MaximizeMergeMatching"):
                 pred, ref = _probe_inputs()[0]
                 m = obj.match_instances(UnmatchedInstancePair(pred.copy(), ref.copy()))
                 return hashlib.sha1(np.asarray(m.prediction_arr).astype(np.int64).tobytes()).hexdigest()[:12]
             if cname == "ConnectedComponentsInstanceApproximator":
+                if not rev:
+                    # the original object has met a 2-D input before the 3-D probe, the second loaded copy has not
+                    p2, r2 = _probe_inputs()[0]
+                    obj.approximate_instances(SemanticPair(p2.copy(), r2.copy()))
                 pred, ref = _probe_inputs()[1]
                 u = obj.approximate_instances(SemanticPair(pred.copy(), ref.copy()))
                 return hashlib.sha1(np.asarray(u.prediction_arr).astype(np.int64).tobytes() + np.asarray(u.reference_arr).astype(np.int64).tobytes()).hexdigest()[:12]
@@ -258,8 +264,11 @@ def round_trip(cname, cls, kwargs, params, workdir: Path, meta=None) -> dict:
             loaded.save_to_config(str(f2))
             rec["same_text"] = f1.read_bytes() == f2.read_bytes()
             b1, b2 = behaviour(cname, obj), behaviour(cname, loaded)
-            rec["same_results"] = "na" if b1 == "na" else ("yes" if b1 == b2 else "no")
-            rec["meta"]["behaviour"] = [b1[:60], b2[:60]]
+            # a second loaded copy meets the probe inputs in the other order: a loaded evaluator is the same
+            # evaluator whatever either of them has evaluated before
+            b3 = behaviour(cname, cls.load_from_config(str(f1)), rev=True) if b1 != "na" else "na"
+            rec["same_results"] = "na" if b1 == "na" else ("yes" if b1 == b2 == b3 else "no")
+            rec["meta"]["behaviour"] = [b1[:60], b2[:60], b3[:60]]
     except Exception as e:  # noqa: BLE001
         rec["out"] = "raise"
         rec["meta"]["exception"] = f"{type(e).__name__}: {e}"[:300]
